@@ -53,6 +53,9 @@ def pauli_name(p: int) -> str:
 def _parse_pauli_label_str(s: str) -> Mapping[int, SinglePauli]:
     # Remove spaces after XYZ: "X 0 Y 1 Z 2" -> "X0 Y1 Z2"
     terms = re.sub(r"([XYZ])\s*", r"\1", s).split()
+    if terms == ["I"]:
+        # "I" is the string form of the identity label (see PauliLabel.__str__)
+        return dict()
     if len(terms) == 0:
         raise ValueError(f"No valid Pauli label found in '{s}'")
     d: dict[int, SinglePauli] = dict()
